@@ -53,6 +53,8 @@ func residueFailers(r *h.Rand) []*prog {
 		p.esc = pickW(r, "html", 3, "nil", 1)
 		p.files["/main.jet"] = src
 		p.files["/inc.jet"] = `INC{{x := 5}}{{fail("in include")}}`
+		p.files["/n1.jet"] = `{{ w := 1 }}{{include "/n2.jet"}}`
+		p.files["/n2.jet"] = `{{yield content}}`
 		p.tags["failer"] = true
 		return p
 	}
@@ -69,6 +71,7 @@ func residueFailers(r *h.Rand) []*prog {
 		mk(`{{try}}` + secret + `{{try}}x{{ missing }}{{catch}}y{{ missing2 }}{{end}}{{end}}{{ missing3 }}`),
 		mk(`{{range el}}x{{else}}e{{end}}{{range nl}}{{else}}{{range el}}{{else}}{{fail("in else")}}{{end}}{{end}}`),
 		mk(`{{range li}}{{range ls}}{{range k, v := m}}{{fail("deep")}}{{end}}{{end}}{{end}}`),
+		mk(`{{block wrap()}}[{{include "/n1.jet"}}]{{end}}{{yield wrap() content}}` + secret + `{{ missing }}{{end}}`),
 		mk(`{{ x := "` + secret + `" }}{{ exec("/inc.jet", x) }}{{include "/inc.jet" x}}`),
 	}
 }
@@ -189,7 +192,10 @@ func init() {
 				pathsOf[k] = paths
 				before[k] = dumpAll(pe.set, paths)
 			}
-			res, _ := pe.run(ec, nil)
+			res, perr := pe.run(ec, nil)
+			if perr != "" && oracle == "" {
+				oracle = fmt.Sprintf("call %d (program %d): %s", ci, k, perr)
+			}
 			rs := addrRe.ReplaceAllString(res.String(), "PTR")
 			if prev, dup := seen[k]; dup && prev != rs && oracle == "" {
 				oracle = fmt.Sprintf("call %d (program %d) returned %s, the same call earlier in the history returned %s", ci, k, clipS(rs), clipS(prev))
